@@ -25,6 +25,19 @@ CHECKS = [
              "and next to every face: the returned cell's extent contains the position, extents abut and cover [0,L), and "
              "neighbour/nearby/relative/translate equal index arithmetic mod n for all pairs (exhaustive <=150 cells).",
      "note": "Trusted: the index-arithmetic model in vlib/props/C16.py. Grids limited to 2500 cells per case."},
+    {"id": "C05", "engine": "hypothesis-runner", "design_ref": "DESIGN.md §3 C05",
+     "technique": "property-based testing (Hypothesis) with scripted randomness: exact integration of the selection step function (thresholds by bisection) against the flow-balance identity",
+     "text": "Generated zero-sum derivative tables (2-12 entries, zeros, near-cancelling values, 12 decades, any insertion order) x 3 "
+             "schemes x every positive entry as active unit: the selection as a function of the uniform draw is located exactly "
+             "and integrated; inflow of each unit must equal the magnitude of its negative derivative, non-negative units are "
+             "never returned (end points included), fresh and reused instances agree.",
+     "note": "Trusted: the substitution of the module attribute `random` (uniform(a,b)=a+(b-a)u as in CPython); bisection assumes a step function, verified by interior probes."},
+    {"id": "C18", "engine": "hypothesis-runner", "design_ref": "DESIGN.md §3 C18",
+     "technique": "property-based testing (Hypothesis) with scripted randomness: exact enumeration of alias-table rows x located thresholds against rate/total",
+     "text": "Generated rate vectors (1-400 entries, up to 90% zeros, 12 decades, near-mean values): selection probabilities obtained "
+             "by enumerating every table row and locating the break point of the second draw equal rate/total to 1e-12, total "
+             "rate equals fsum, zero-rate cells never selected.",
+     "note": "Trusted: scripted random substitution. Rates restricted to 0 or [1e-9,1e9] with positive sum."},
 ]
 
 _ALL = ["C%02d" % i for i in range(1, 21)]
